@@ -391,6 +391,11 @@ def check_case(case, ctx):
             ctx.fail("data-sent-differs-from-fresh-model",
                      "round %d sent (constraints, LMIs, LMI entries) = %r, a newly built equivalent model sends %r"
                      % (r, out["size"], data_size(ob2)))
+        if (ob2.result is None) != (out["result"] is None) and (str(ob2.status).endswith("_inaccurate") or str(out.get("status")).endswith("_inaccurate")):
+            # 'unbounded_inaccurate' / 'infeasible_inaccurate' is the solver giving up, not a certificate: SCS ends that way on a
+            # rebuilt model whose re-solved twin it solves to optimality (the two differ only in the order of their variables)
+            ctx.label("inconclusive:finite-vs-none-with-an-inaccurate-status")
+            continue
         if (ob2.result is None) != (out["result"] is None) and (out.get("init_dropped") or opts.get("solver") == "SCS" and opts.get("drh")):
             # without its initial condition the model is bounded by the generic caps only (optimal values around 1e5): whether
             # a first-order solver ends 'optimal' or 'unbounded' there is not reproducible between two runs
